@@ -83,6 +83,39 @@ func mkInput(fmtName string, n int, nfiles int) input {
 				kv := strings.Split(r, ",")
 				b.WriteString(strings.TrimPrefix(kv[0], "i=") + "," + strings.TrimPrefix(kv[1], "g=") + "\n")
 			}
+		case "tsv", "csvlite":
+			sep := map[string]string{"tsv": "\t", "csvlite": ","}[fmtName]
+			b.WriteString("i" + sep + "g\n")
+			for _, r := range part {
+				kv := strings.Split(r, ",")
+				b.WriteString(strings.TrimPrefix(kv[0], "i=") + sep + strings.TrimPrefix(kv[1], "g=") + "\n")
+			}
+		case "nidx":
+			for _, r := range part {
+				kv := strings.Split(r, ",")
+				b.WriteString(strings.TrimPrefix(kv[0], "i=") + " " + strings.TrimPrefix(kv[1], "g=") + "\n")
+			}
+		case "xtab":
+			for k, r := range part {
+				kv := strings.Split(r, ",")
+				if k > 0 {
+					b.WriteString("\n")
+				}
+				b.WriteString("i " + strings.TrimPrefix(kv[0], "i=") + "\ng " + strings.TrimPrefix(kv[1], "g=") + "\n")
+			}
+		case "pprint":
+			if len(part) > 0 {
+				b.WriteString("i g\n")
+			}
+			for _, r := range part {
+				kv := strings.Split(r, ",")
+				b.WriteString(strings.TrimPrefix(kv[0], "i=") + " " + strings.TrimPrefix(kv[1], "g=") + "\n")
+			}
+		case "jsonl":
+			for _, r := range part {
+				kv := strings.Split(r, ",")
+				fmt.Fprintf(&b, "{\"i\": %s, \"g\": \"%s\"}\n", strings.TrimPrefix(kv[0], "i="), strings.TrimPrefix(kv[1], "g="))
+			}
 		case "json":
 			b.WriteString("[\n")
 			for k, r := range part {
@@ -310,6 +343,10 @@ func (c *config) argv(dir string) ([]string, vf.VFS) {
 		argv = append(argv, "--icsv", "--odkvp")
 	case "json":
 		argv = append(argv, "--ijson", "--odkvp")
+	case "tsv", "csvlite", "xtab", "pprint", "jsonl":
+		argv = append(argv, "--i"+c.In.Fmt, "--odkvp")
+	case "nidx":
+		argv = append(argv, "--inidx", "--ifs", " ", "--oxtab", "--ops", "=") // field names 1,2: printed as 1=..,2=.. per line pair
 	}
 	argv = append(argv, "--records-per-batch", fmt.Sprint(c.B))
 	argv = append(argv, c.Chain.Flags...)
@@ -441,6 +478,12 @@ func enumerate(quick bool) (pairs [][]*config) {
 	}
 	nmax := ns[len(ns)-1]
 	inputs = append(inputs, mkInput("dkvp", nmax, 2), mkInput("csv", 3, 1), mkInput("csv", nmax, 2), mkInput("json", 3, 1), mkInput("json", nmax, 2))
+	for _, f := range []string{"tsv", "csvlite", "xtab", "pprint", "jsonl", "nidx"} {
+		inputs = append(inputs, mkInput(f, 3, 1))
+		if !quick {
+			inputs = append(inputs, mkInput(f, nmax, 2))
+		}
+	}
 	byName := map[pairKey][]*config{}
 	var order []pairKey
 	for _, in := range inputs {
@@ -448,6 +491,12 @@ func enumerate(quick bool) (pairs [][]*config) {
 		for _, ch := range chains(quick, n) {
 			if ch.NoIn && in.Name != inputs[0].Name {
 				continue
+			}
+			if in.Fmt == "nidx" && (ch.Ref != nil || strings.Contains(ch.Name, "-g")) {
+				ch.Ref = nil // positional field names: singleton law, deadlock and termination only
+				if strings.Contains(ch.Name, "-g") {
+					continue
+				}
 			}
 			if in.Fmt != "dkvp" && !(strings.HasPrefix(ch.Name, "cat") || strings.HasPrefix(ch.Name, "head -n 1") || strings.HasPrefix(ch.Name, "head -n 2 then head") || ch.Name == "tac" || strings.HasPrefix(ch.Name, "tee")) {
 				continue // other readers: the reader-facing chains only
